@@ -554,6 +554,9 @@ func (sp *sourcePrinter) splitIntoRanges(prof *profile.Profile, addrMap map[uint
 		}
 	}
 	sort.Slice(addrs, func(i, j int) bool { return addrs[i] < addrs[j] })
+	// The order of the unprocessed addresses decides the order of the synthesized
+	// instructions of a source line; do not leave it to map iteration.
+	sort.Slice(unprocessed, func(i, j int) bool { return unprocessed[i] < unprocessed[j] })
 
 	const expand = 500 // How much to expand range to pick up nearby addresses.
 	var result []addressRange
@@ -629,7 +632,12 @@ func (sp *sourcePrinter) generate(maxFiles int, rpt *Report) WebListData {
 	for _, f := range sp.files {
 		files = append(files, f)
 	}
-	order := func(i, j int) bool { return files[i].flat > files[j].flat }
+	order := func(i, j int) bool {
+		if files[i].flat != files[j].flat {
+			return files[i].flat > files[j].flat
+		}
+		return files[i].fname < files[j].fname // files come out of a map: break ties
+	}
 	if maxFiles < 0 {
 		// Order by name for compatibility with old code.
 		order = func(i, j int) bool { return files[i].fname < files[j].fname }
